@@ -202,6 +202,9 @@ func RunC01(tier, replay string) int {
 	} else {
 		// ---- (1) model universe: reuse the packed pipeline; dropped definitions are C01 violations
 		defs, _ := EnumerateDefs(k, depth, "D")
+		for _, sp := range SpecialDefs() { // tuples, polymorphism, odd property names, allOf of maps
+			defs = append(defs, sp.Def)
+		}
 		ms := NewScratch("C01m")
 		run, err := BuildModels(ms, defs, 50)
 		if err != nil {
